@@ -2,7 +2,6 @@ package main
 
 import (
 	"context"
-	"errors"
 	"fmt"
 	"strconv"
 	"strings"
@@ -15,7 +14,7 @@ import (
 
 func init() {
 	suites["lock"] = suite{
-		rule: "C34: (1) script-level: acqms/acqat/fcqms/fcqat/extend/delkey on the fake's registers with own, foreign and missing values vs the Lean register scripts; (2) end-to-end: real rueidislock Lockers (KeyMajority 1..3, NoLoopTracking, FallbackSETPX on/off, one fake connection per Locker with OPTOUT tracking and invalidation pushes) driven one event at a time to quiescence: TryWithContext, WithContext waiters (goroutines), ForceWithContext, release (cancel func), third-party deletion and expiry of single keys, an injected extend failure; the anonymous state (live contexts, waiters, every live holder owns a majority, all keys free when idle) is compared with the Lean model run to quiescence on a canonical schedule; the harness itself flags two live contexts in episodes without force/expiry/deletion/faults and a key deleted by its holder's delkey while that holder's context is still live; after a waiter took the lock over, episodes destroy no further keys (how many spare keys the new holder got is a scheduler race); non-trivial = distinct op within its episode prefix",
+		rule: "C34: (1) script-level: acqms/acqat/fcqms/fcqat/extend/delkey on the fake's registers with own, foreign and missing values vs the Lean register scripts; (2) end-to-end: real rueidislock Lockers (KeyMajority 1..3, NoLoopTracking, FallbackSETPX on/off, one fake connection per Locker with OPTOUT tracking and invalidation pushes) driven one event at a time to quiescence: TryWithContext, WithContext waiters (goroutines), ForceWithContext, release (cancel func), third-party deletion and expiry of single keys, injected failures of one acquisition (bare-majority holders) and of one extend, third-party writes; the anonymous state (live contexts, waiters, every live holder owns a majority, all keys free when idle) is compared with the Lean model run to quiescence on a canonical schedule; the harness itself flags two live contexts in episodes without force/expiry/deletion/faults and a key deleted by its holder's delkey while that holder's context is still live; after a waiter took the lock over, episodes destroy no further keys (how many spare keys the new holder got is a scheduler race); non-trivial = distinct op within its episode prefix",
 		run:  runLock,
 		replay: func(c *Ctx, lines []string) {
 			ep := &lkEp{}
@@ -46,6 +45,8 @@ type lkEp struct {
 	dirty   bool // force / expiry / deletion / fault happened: the mutual-exclusion hypothesis is off
 	early   []string
 	failKey string
+	lastVal map[int]string // connection id -> value of its last successful acquire/force script
+	failAcq string // one injected failure of the next acquire script on this key
 	dead    bool
 }
 
@@ -85,12 +86,9 @@ func (e *lkEp) locker(i int, px bool) rueidislock.Locker {
 	return l
 }
 
-func (e *lkEp) got(ctx context.Context, cancel context.CancelFunc) {
+func (e *lkEp) got(ctx context.Context, cancel context.CancelFunc, conn int) {
 	e.srv.mu.Lock()
-	val := ""
-	if v := e.srv.keys[e.key(0)]; v != nil {
-		val = v.s
-	}
+	val := e.lastVal[conn]
 	e.srv.mu.Unlock()
 	e.mu.Lock()
 	e.holders = append(e.holders, &lkHolder{ctx: ctx, cancel: cancel, val: val})
@@ -158,7 +156,7 @@ func (e *lkEp) op(c *Ctx, line string) {
 		e.n = 2*e.m - 1
 		e.srv = newFakeServer(func() int64 { return time.Now().UnixMilli() })
 		e.admin = newFakeClient(e.srv, 99, rueidis.ClientOption{})
-		e.lockers, e.holders, e.waiting, e.cancels, e.dirty, e.early, e.failKey = map[int]rueidislock.Locker{}, nil, 0, nil, false, nil, ""
+		e.lockers, e.holders, e.waiting, e.cancels, e.dirty, e.early, e.failKey, e.failAcq = map[int]rueidislock.Locker{}, nil, 0, nil, false, nil, "", ""
 		e.srv.failCmd = func(cmd []string) string {
 			// one injected failure of the extend script on e.failKey
 			if e.failKey != "" && len(cmd) > 3 && strings.HasPrefix(strings.ToUpper(cmd[0]), "EVAL") && cmd[3] == e.failKey &&
@@ -166,9 +164,19 @@ func (e *lkEp) op(c *Ctx, line string) {
 				e.failKey = ""
 				return "ERR injected failure"
 			}
+			// one injected failure (a timeout as the client sees it) of the acquire / force script on e.failAcq
+			if e.failAcq != "" && len(cmd) > 3 && strings.HasPrefix(strings.ToUpper(cmd[0]), "EVAL") && cmd[3] == e.failAcq &&
+				(acqShas[cmd[1]] || strings.HasPrefix(cmd[1], "local r = redis.call(\"SET\"")) {
+				e.failAcq = ""
+				return "ERR injected timeout"
+			}
 			return ""
 		}
+		e.lastVal = map[int]string{}
 		e.srv.onExec = func(l *logged) {
+			if (strings.HasPrefix(l.name, "lk.acq") || strings.HasPrefix(l.name, "lk.fcq")) && l.rep.typ == '+' && l.cl != nil {
+				e.lastVal[l.cl.id] = l.args[0]
+			}
 			if l.name == "lk.delkey" && l.rep.typ == ':' && l.rep.n == 1 {
 				// the holder's own delkey removed a key (called under the server mutex, after the deletion):
 				// its context must be done unless it still owns a majority (then this was a single key lost
@@ -240,14 +248,12 @@ func (e *lkEp) op(c *Ctx, line string) {
 			return
 		}
 		if err == nil {
-			e.got(ctx, cancel)
-		} else if !errors.Is(err, rueidislock.ErrNotLocked) {
-			c.Emit(line, "err:"+err.Error(), true)
-			return
+			e.got(ctx, cancel, int(w[1][0]-'0')+1)
 		}
 		c.Hit(w[0] + ":" + errClassLock(err))
 		emit()
 	case "with":
+		conn := int(w[1][0]-'0') + 1
 		l := e.locker(int(w[1][0]-'0'), len(w) > 2 && w[2] == "px")
 		src, stop := context.WithCancel(bg)
 		e.cancels = append(e.cancels, stop)
@@ -257,7 +263,7 @@ func (e *lkEp) op(c *Ctx, line string) {
 		go func() {
 			ctx, cancel, err := l.WithContext(src, "L")
 			if err == nil {
-				e.got(ctx, cancel)
+				e.got(ctx, cancel, conn)
 			}
 			e.mu.Lock()
 			e.waiting--
@@ -298,6 +304,17 @@ func (e *lkEp) op(c *Ctx, line string) {
 		e.srv.flush()
 		c.Hit(w[0])
 		emit()
+	case "failacq": // the next acquire script on key i fails with a server error (the caller sees a timeout)
+		i, _ := strconv.Atoi(w[1])
+		e.failAcq = e.key(i)
+		c.Hit("failacq")
+		emit()
+	case "extset": // another program writes key i
+		e.dirty = true
+		i, _ := strconv.Atoi(w[1])
+		_ = e.admin.Do(bg, e.admin.B().Set().Key(e.key(i)).Value("foreign").Build())
+		c.Hit("extset")
+		emit()
 	case "failext": // the next extend of key i fails with a server error; an invalidation makes the monitor try
 		e.dirty = true
 		i, _ := strconv.Atoi(w[1])
@@ -327,6 +344,11 @@ func watchdog(f func()) bool {
 	}
 }
 
+var acqShas = map[string]bool{
+	"3875d208d9e377969d2022550302cc83ad17b584": true, "fa3d1aaa7e4145457755016a3d5daf72fa7a11bf": true,
+	"c10e8119872659b926e8e28002d9b7fccbf15617": true, "4384ed08baff4dd7071b6c78c516a2fded4ee3e7": true,
+}
+
 func errClassLock(err error) string {
 	if err == nil {
 		return "ok"
@@ -354,6 +376,11 @@ func runLock(c *Ctx) {
 		{"reset 3", "try 0", "with 0", "expire 0", "expire 3", "expire 1", "release"},
 		{"reset 2", "try 0", "failext 2", "try 1", "release", "try 1"},
 		{"reset 1", "with 0", "with 0", "with 1", "release", "release", "release"},
+		// bare majority: one acquisition fails (timeout / key held by another program), later an extend fails
+		{"reset 2", "failacq 2", "try 0", "with 1", "failext 0", "release"},
+		{"reset 2", "extset 2", "try 0 px", "with 1 px", "failext 1", "release"},
+		{"reset 3", "failacq 3", "try 0", "failacq 4", "try 1", "extset 4", "failext 2", "with 2", "failext 0", "release"},
+		{"reset 2", "failacq 1", "try 0", "try 1", "failext 0", "try 1"},
 	}
 	for _, sc := range fixed {
 		for _, l := range sc {
@@ -371,7 +398,11 @@ func runLock(c *Ctx) {
 		// once a waiter has taken the lock over, how many of the spare keys it got depends on a race with
 		// the previous holder's monitors: no third-party key destruction afterwards (see the suite rule)
 		handover := false
+		waitOn := map[int]bool{}
 		for j := 0; j < 6+r.IntN(8); j++ {
+			if ep.waiting == 0 {
+				waitOn = map[int]bool{}
+			}
 			before := ep.waiting
 			x := r.IntN(16)
 			if handover && x >= 12 && x <= 14 {
@@ -381,8 +412,13 @@ func runLock(c *Ctx) {
 			case x < 4:
 				ep.op(c, fmt.Sprintf("try %d%s", r.IntN(3), px))
 			case x < 7:
-				if ep.waiting < 3 {
-					ep.op(c, fmt.Sprintf("with %d%s", r.IntN(3), px))
+				// at most one waiter per Locker when m >= 2: two waiters of ONE Locker (one NOLOOP connection) can
+				// refuse each other with the keys a failing attempt holds for a moment, and nothing wakes them
+				// afterwards (see props/C34.json `partial`) - whether that happens is up to the scheduler
+				l := r.IntN(3)
+				if ep.waiting < 3 && (m == 1 || !waitOn[l]) {
+					waitOn[l] = true
+					ep.op(c, fmt.Sprintf("with %d%s", l, px))
 				}
 			case x < 11:
 				ep.op(c, "release")
@@ -393,8 +429,14 @@ func runLock(c *Ctx) {
 			case x == 13:
 				ep.op(c, fmt.Sprintf("expire %d", r.IntN(2*m-1)))
 			case x == 14:
-				if i%3 == 0 {
+				switch (i + j) % 3 {
+				case 0:
 					ep.op(c, fmt.Sprintf("failext %d", r.IntN(2*m-1)))
+				case 1:
+					ep.op(c, fmt.Sprintf("failacq %d", r.IntN(2*m-1)))
+					ep.op(c, fmt.Sprintf("try %d%s", r.IntN(3), px))
+				default:
+					ep.op(c, fmt.Sprintf("extset %d", r.IntN(2*m-1)))
 				}
 			default:
 				ep.op(c, fmt.Sprintf("try %d%s", r.IntN(3), px))
